@@ -792,6 +792,14 @@ class Mailbox:
                 #
                 await self.command_can_proceed(imap_cmd)
 
+                # While we were waiting the commands that were executing may
+                # have changed the mailbox (an EXPUNGE renumbers it): what the
+                # message set refers to has to be worked out again.
+                #
+                imap_cmd.msg_set_as_set = self.msg_set_to_msg_seq_set(
+                    imap_cmd.msg_set, imap_cmd.uid_command
+                )
+
                 # If there are no tasks, do a resync. Also potentially pack the
                 # folder (doing it while there are no commands running to
                 # prevent any sort of sync between client and server errors.)
